@@ -226,6 +226,37 @@ def main():
                     "hamiltonian-element", "after-diagonalize",
                     dict(rp, dH=float(numpy.abs(Ha - Hd).max()),
                          dD=float(numpy.abs(Da - Dd).max())), rp)
+        # parameters changed after the first build, aggregate rebuilt: both
+        # accessors hand out the Frenkel matrix of the CURRENT parameters
+        # (reference: a fresh aggregate built from the changed parameters)
+        with ck.guarded("hamiltonian-element", "after-rebuild", rp, rp):
+            agr, Hr0, Dr0 = build(Ecm, Jcm, dip, ident, "1/cm", "int", mult)
+            numpy.array(agr.get_electronic_Hamiltonian()._data)   # first read
+            E2 = numpy.array(Ecm)
+            E2[N - 1] -= 333.0
+            J2 = numpy.array(Jcm)
+            J2[0, N - 1] = J2[N - 1, 0] = Jcm[0, N - 1] + 217.0
+            with qr.energy_units("1/cm"):
+                agr.set_resonance_coupling(0, N - 1, float(J2[0, N - 1]))
+                agr.monomers[N - 1].set_energy(1, float(E2[N - 1]))
+            agr.rebuild(mult=mult)
+            agf, Hf, Df = build(E2, J2, dip, ident, "1/cm", "int", mult)
+            for nm_, got, want in (
+                    ("get_Hamiltonian",
+                     numpy.array(agr.get_Hamiltonian()._data), Hf),
+                    ("get_electronic_Hamiltonian",
+                     numpy.array(agr.get_electronic_Hamiltonian()._data),
+                     numpy.array(agf.get_electronic_Hamiltonian()._data))):
+                e = (float(numpy.abs(got - want).max())
+                     if got.shape == want.shape else float("inf"))
+                ck.case("after-rebuild", (s, nm_), sample=dict(
+                    rp, accessor=nm_, err=e))
+                if e > 1e-12 * float(numpy.abs(want).max()):
+                    ck.violation("hamiltonian-element",
+                                 "after-rebuild:" + nm_,
+                                 dict(rp, accessor=nm_, err=e), rp)
+            if float(numpy.abs(Hf - Hr0).max()) == 0.0:
+                raise MachineryFailure("rebuild clause changed nothing")
         for perm in itertools.permutations(range(N)):
             with ck.guarded("relabelling-invariant", "perm", rp, rp):
                 ag1, H1, D1 = build(Ecm, Jcm, dip, list(perm), "1/cm", "int",
